@@ -1222,6 +1222,7 @@ def run(ctx: Ctx):
     torchrl_step_on_a_copy(ctx)
     mask_rows_decided_per_instance(ctx)
     subclass_switches_take_effect(ctx)
+    op_lengths(ctx)
     for cname, (path, family) in T.ENVS.items():
         env = EnvA(ctx.repo, path, cname)
         rule_a(ctx, env, family)
@@ -1297,6 +1298,73 @@ def subclass_switches_take_effect(ctx: Ctx):
                        construct=f"{ci.name}.{name}:shadowed-by-instance-attribute")
     if n < 1:
         raise AnalysisError("no class-level switch re-declared by an environment subclass was found (SPCTSPEnv._stochastic expected)")
+
+
+def op_lengths(ctx: Ctx, rid: str = "C01.l"):
+    """C01.l (shared as C05.l / C06.v) OP keeps its length bookkeeping inline instead of through ops.get_distance:
+      * every `.norm(...)` in OPEnv is applied to a DIFFERENCE of two coordinate expressions (the norm of a sum of two
+        positions is not a distance), over the coordinate axis;
+      * `_reset` stores, per node, the budget on ARRIVAL:  max_length - |depot - node| - eps  with 0 <= eps <= 1e-5 (sign-exact
+        polynomial form: the return leg enters with coefficient -1);
+      * the checker restores the instance's limit by ADDING the same leg back (+1) before comparing the tour length with it."""
+    import ast
+    env = EnvA(ctx.repo, T.ENVS["OPEnv"][0], "OPEnv")
+    n_sites, bad = 0, []
+    for mname, fi in sorted(env.cls.methods.items()):
+        for c in ast.walk(fi.node):
+            if isinstance(c, ast.Call) and isinstance(c.func, ast.Attribute) and c.func.attr == "norm":
+                n_sites += 1
+                recv = c.func.value
+                while isinstance(recv, ast.Call) and ((isinstance(recv.func, ast.Attribute) and recv.func.attr == "abs" and not recv.args) or (ast.unparse(recv.func) == "torch.abs" and recv.args)):
+                    recv = recv.func.value if isinstance(recv.func, ast.Attribute) and recv.func.attr == "abs" else recv.args[0]
+                diff = isinstance(recv, ast.BinOp) and isinstance(recv.op, ast.Sub)
+                dims = [k.value for k in c.keywords if k.arg == "dim"]
+                axis = bool(dims) and isinstance(dims[0], (ast.Constant, ast.UnaryOp)) and ast.unparse(dims[0]) == "-1"
+                if not (diff and axis):
+                    bad.append(f"{mname}: {ast.unparse(c)[:70]} (line {c.lineno})")
+    if n_sites < 4:
+        raise AnalysisError(f"OPEnv: inline norm sites lost ({n_sites} < 4)")
+    ctx.ob(rid, "OPEnv:legs-are-norms-of-differences", not bad, env.cls.methods["_step"].loc,
+           f"{n_sites} inline norms, each of a difference over dim=-1: {not bad}" + ("" if not bad else f" -- {bad[0]}"), construct="OPEnv:norm-of-a-non-difference")
+    # stored budget
+    rs = env.slot("_reset")
+    v = rs.cell("max_length")
+    ok_b, why_b = False, "stored budget not resolved"
+    if isinstance(v, vg.S):
+        p_ = nf.poly(v)
+        norms = [a for a in p_.atoms() if (a.op == "meth" and a.args[1] == "norm") or "norm" in (nf._fn(a) or "")]
+        lim = [a for a in p_.atoms() if "max_length" in vg.cells_of(a) and a not in norms]
+        c0 = p_.const_term()
+        lin = len(norms) == 1 and len(lim) == 1 and p_ == nf.Poly.atom(lim[0]) - nf.Poly.atom(norms[0]) + nf.Poly.const(c0)
+        ok_b = bool(lin and -1e-5 <= float(c0) <= 0)
+        why_b = f"max_length' = {p_.show(3)[:110]}: limit (+1), return leg (-1), margin {float(c0):g} in [-1e-5, 0] -- {ok_b}"
+    ctx.ob(rid, "OPEnv._reset:budget-on-arrival", ok_b, rs.where, why_b, construct="OPEnv._reset:max_length:formula")
+    # checker restores the limit (value graph: robust against temporaries)
+    ck = env.cls.methods.get("check_solution_validity")
+    ok_c, why_c = False, "restoring expression not found"
+    csl = env.slot("check_solution_validity")
+    if ck is not None and csl is not None:
+        ctx.fn(ck)
+        for e in csl.events("assert"):
+            if not isinstance(e.data, vg.S) or "max_length" not in vg.cells_of(e.data):
+                continue
+            for n in vg.walk(e.data):
+                if n.op not in ("phi", "ifexp"):
+                    continue
+                for br in n.args[1:]:
+                    if not isinstance(br, vg.S):
+                        continue
+                    try:
+                        pb = nf.poly(br)
+                    except Exception:
+                        continue
+                    nrm = [a_ for a_ in pb.atoms() if (a_.op == "meth" and a_.args[1] == "norm") or "norm" in (nf._fn(a_) or "")]
+                    lim = [a_ for a_ in pb.atoms() if "max_length" in vg.cells_of(a_) and a_ not in nrm]
+                    if len(nrm) == 1 and len(lim) == 1:
+                        c0 = pb.const_term()
+                        ok_c = pb == nf.Poly.atom(lim[0]) + nf.Poly.atom(nrm[0]) + nf.Poly.const(c0) and 0 <= float(c0) <= 1e-5
+                        why_c = f"limit used by the checker = {pb.show(3)[:100]}: stored budget (+1), return leg (+1), margin {float(c0):g} -- {ok_c}"
+    ctx.ob(rid, "OPEnv.checker:limit-restored", ok_c, ck.loc if ck is not None else env.cls.methods["_step"].loc, why_c, construct="OPEnv.check_solution_validity:limit-restored")
 
 
 def mask_rows_decided_per_instance(ctx: Ctx):
